@@ -286,9 +286,13 @@ func ruleBranch(c *Ctx) {
 			case run.Width == 4:
 				c.ok("I2", k, pos, "32-bit displacement: no narrowing test needed")
 			case !found:
-				c.fail("I2", k, pos, fmt.Sprintf("no range test on (target − current) selects the %d-bit form", run.Width*8))
+				// a separate obligation from "tested on another value": a known finding of that kind
+				// must not hide a form whose test has disappeared (or is made after the narrowing)
+				c.fail("I2", k+"|range test present", pos, fmt.Sprintf("no range test on (target − current) selects the %d-bit form (a test made on the already narrowed value always succeeds)", run.Width*8))
+			case !(lo != nil && hi != nil && *lo == wlo && *hi == whi):
+				c.fail("I2", k+"|canonical bounds", pos, fmt.Sprintf("the %d-bit form is selected by a test in [%s,%s]; the canonical signed range is [%d,%d]", run.Width*8, istr(lo), istr(hi), wlo, whi))
 			default:
-				good := onK == lv.K && lo != nil && hi != nil && *lo == wlo && *hi == whi
+				good := onK == lv.K
 				c.check(good, "I2", k, pos, fmt.Sprintf("the %d-bit displacement is (target − current) %+d, but the form is selected by testing (target − current) %+d in [%s,%s]; canonical [%d,%d] on the same value is required (otherwise boundary distances wrap silently)",
 					run.Width*8, lv.K, onK, istr(lo), istr(hi), wlo, whi))
 			}
@@ -336,6 +340,9 @@ func pathBounds(p *pathInfo, lv linear, cls classifier) (lo, hi *int64, k int64,
 		}
 		// direct comparison
 		if v, l, h, ok := cmpBound(bo, g.Taken); ok {
+			if p.narrowed(v) {
+				continue // tested after a narrowing conversion: vacuous
+			}
 			lw := p.linearOf(v)
 			if sameTerms(lw, lv) && len(lw.Terms) > 0 {
 				if found && lw.K != k {
